@@ -1,4 +1,5 @@
 import Snel.Lemmas.Order
+import Snel.Lemmas.Rlte
 /-!
 # C10 — ORDER BY, LIMIT and OFFSET return the right slice in the right order
 
@@ -23,7 +24,7 @@ Reading guide.
   implements it, is what the correspondence stream runs against the real merger.
 -/
 namespace Snel.Props.C10
-open Snel.Order
+open Snel.Order Snel.Rlte
 
 variable {α : Type}
 
@@ -130,6 +131,48 @@ theorem C10_compare_nan_fails : ¬ TPO SV.compare (fun v => ∃ f, v = SV.float 
   intro h
   exact h.trans (.float 0x4000000000000000) (.float 0x7FF8000000000000) (.float 0x3FF0000000000000)
     ⟨_, rfl⟩ ⟨_, rfl⟩ ⟨_, rfl⟩ (by decide) (by decide) (by decide)
+
+/-! ## RLTE zone pre-selection (`plan_with_rlte`) -/
+
+/-- The sizing of the pre-selection: `k = FACTOR · (LIMIT + OFFSET)` with `FACTOR = 10` as read
+from `rlte_planner.rs` by `tools/consts/C10.py`, and no plan at all when that is 0. -/
+theorem C10_rlte_sizing (limit offset : Option Nat) (zones : List Zone) (asc : Bool) (zs : Nat)
+    (wb : Option (WhereKind × Nat)) :
+    rlteK limit offset = 10 * (limit.getD 0 + offset.getD 0) ∧
+    (limit.getD 0 + offset.getD 0 = 0 → planWithRlte zones asc limit offset zs wb = none) := by
+  refine ⟨rfl, fun h => ?_⟩
+  simp [planWithRlte, rlteK, h]
+
+/-- The full statement "the pre-selected zones hold the rows at positions m..m+n" (`RlteKeeps`)
+is FALSE of the code.  Five zones of two rows, `ORDER BY v ASC LIMIT 1`: the numeric greedy
+accumulates only 1 per mixed zone and cannot reach k = 10, the string fallback reaches it at the
+fifth zone, takes that zone's *maximum* as cutoff and drops every zone whose maximum lies above it
+— including the zone {1, 100} that holds the smallest row.  (Known finding
+C10-rlte-preselection-drops-zones; replayed on the real planner by the `rlte` stream.) -/
+theorem C10_rlte_keeps_fails : ¬ RlteKeeps witness true 1 0 2 := by
+  unfold RlteKeeps
+  decide
+
+/-- PARTIAL: what does hold.  If every zone's ladder is a single numeric entry (one row per
+zone, i.e. `event_per_zone = 1`, integer / timestamp field), there is no WHERE bound on the field
+and a plan is produced, then the kept zones are exactly the zones at or before a cutoff `t` in the
+requested direction, and they number at least `10·(LIMIT+OFFSET) / zoneSize`.  Hence every zone
+that is not kept is preceded by at least that many kept rows: with `zoneSize ≤ 10` none of the
+first `LIMIT+OFFSET` rows is lost.  Missing for the full statement: zones with more than one row
+(the ladder minimum is not the zone minimum; the string fallback prunes on the zone maximum),
+strings, and any WHERE clause (rows that fail it still count towards k). -/
+theorem C10_rlte_keeps_partial (zones : List Zone) (h : ∀ z ∈ zones, SingleNumeric z) (asc : Bool)
+    (limit offset : Option Nat) (zs : Nat) (hzs : 0 < zs) (p : Plan)
+    (hp : planWithRlte zones asc limit offset zs none = some p) :
+    ∃ t, p.kept = zones.filter (fun z => before asc (zval z) t) ∧
+      rlteK limit offset ≤ p.kept.length * zs :=
+  plan_single_sound zones h asc limit offset zs hzs p hp
+
+/-- Non-vacuity: 25 single-row zones with values 1..25, `ORDER BY v ASC LIMIT 1 OFFSET 1`
+(k = 20): a plan exists and keeps exactly the 20 zones with the smallest values. -/
+example :
+    (planWithRlte ((List.range 25).map fun i => ⟨0, 1, i, [enc (i + 1)]⟩) true (some 1) (some 1) 1 none).map
+      (fun p => p.kept.map (·.zone)) = some (List.range 20) := by decide
 
 /-- `try_accept_row` over a whole response (unordered queries): the rows emitted are
 `take n (drop m (dedupById rows))`, for every arrival order `rows`, every optional LIMIT and
